@@ -13,6 +13,7 @@ pub mod refs;
 pub mod ind;
 pub mod grid;
 pub mod api;
+pub mod xbuild;
 
 pub struct ReplayReq {
 	pub system: String,
@@ -52,6 +53,8 @@ pub fn parse_args() -> Mode {
 
 impl H {
 	pub fn start(property: &str) -> Self {
+		// deep DFS recursion (long deviation streams): generous stacks for the workers
+		let _ = rayon::ThreadPoolBuilder::new().stack_size(1 << 30).build_global();
 		match parse_args() {
 			Mode::Check(tier) => Self {
 				run: Run::new(property, &tier),
